@@ -845,7 +845,7 @@ func (r *runner) pipelined(rng *rand.Rand) {
 			if d.msg != "" {
 				r.fail("wrong-data@"+pc.kind, d.msg, nil)
 			}
-		case <-time.After(30 * time.Second):
+		case <-time.After(60 * time.Second):
 			r.fail("command-not-completed@"+pc.kind, fmt.Sprintf("%s (%s) has not completed although its tagged response was sent and processed", pc.kind, pc.tag), nil)
 			return
 		}
@@ -1070,7 +1070,7 @@ func (r *runner) refusedLiteral(rng *rand.Rand) {
 	var ar appendRes
 	select {
 	case ar = <-resc:
-	case <-time.After(30 * time.Second):
+	case <-time.After(60 * time.Second):
 		r.fail("command-not-completed@APPEND", "APPEND with a refused synchronising literal never completed", nil)
 		return
 	}
@@ -1359,7 +1359,7 @@ func (r *runner) sameTypeInOrder(rng *rand.Rand) {
 			if msg != "" {
 				r.fail("wrong-data@same-type/"+kind, msg, nil)
 			}
-		case <-time.After(30 * time.Second):
+		case <-time.After(60 * time.Second):
 			r.fail("command-not-completed@same-type/"+kind, fmt.Sprintf("command #%d (%s) did not complete", i+1, o.tag), nil)
 			return
 		}
@@ -1460,7 +1460,7 @@ func (r *runner) expungeCommand(rng *rand.Rand) {
 		if msg != "" {
 			r.fail("wrong-data@"+rc.name, msg, nil)
 		}
-	case <-time.After(30 * time.Second):
+	case <-time.After(60 * time.Second):
 		r.fail("command-not-completed@"+rc.name, rc.name+" did not complete", nil)
 		return
 	}
@@ -1511,7 +1511,7 @@ func (r *runner) stateAtCompletion(rng *rand.Rand) {
 				r.fail("wrong-status", name+": "+err.Error(), nil)
 				return false
 			}
-		case <-time.After(30 * time.Second):
+		case <-time.After(60 * time.Second):
 			r.fail("command-not-completed@"+name, name+" did not complete", nil)
 			return false
 		}
